@@ -23,7 +23,17 @@ RULE = ("seeded random YAML files (plus a fixed corpus) mixing plaintext scalars
         "blanks (also with the line break inside the marker), near-miss markers, values under a foreign key, plaintexts "
         "with trailing blanks or looking encrypted, plaintexts that BEGIN with blanks, a tab or empty lines (indented "
         "snippets, padded passphrases; loss of leading white space has its own signature, apart from the known loss of "
-        "trailing white space); the real eyaml_rotate_keys.main() runs with --backup and "
+        "trailing white space), plaintexts with CR LF or a lone CR in their interior (certificates / keys / scripts with Windows or "
+        "old-Mac line endings, in string and block layouts, bare and anchored+aliased: the plaintext under the new key is compared "
+        "EXACTLY, character by character, by the harness's own reference cipher on the loaded document - no pipe, no line-ending "
+        "normalisation; signature plaintext-carriage-return-changed), values that BEGIN with the marker but hold no well-formed "
+        "token (closing bracket lost / replaced, truncated, tail overwritten) in every layout - one line, folded, literal, "
+        "double-quoted with blanks / continued over several lines, padded - alone in the file, beside an ordinary secret, anchored "
+        "and aliased: the stand-in, like hiera-eyaml, prints such input back unchanged with status 0 (a well-formed token under a "
+        "foreign key or with a corrupt body: status 1), and is byte-exact on input and output; clause judged: when the run exits 0 "
+        "EVERY value treated as encrypted (marker rule) decrypts under the new keys - a value that decrypted under neither the old "
+        "keys before nor the new keys after a run that exits 0 is success-with-undecryptable (a non-zero status claims nothing); "
+        "the real eyaml_rotate_keys.main() runs with --backup and "
         "harness/tools/fake_eyaml on ONE file, or on 2-3 files in one invocation whose secrets carry the same anchor names "
         "(every file judged by itself).  Direct check when the exit status is 0: every encrypted value of every file "
         "decrypts under the new key to its old plaintext and no longer under the old key, is still an encrypted value, "
@@ -337,10 +347,10 @@ CORPUS += ["a: %s\n" % enc(OLD, pt) for pt in ODD_PLAINTEXTS[4:]]
 
 
 # secrets whose plaintext holds CR LF / CR: string and block layouts, bare, anchored + aliased
-CORPUS += ["cert: %s\nblock: >\n  %s\n  %s\nshared: &c %s\nuse: *c\nn: 1\n" % (
+CR_CORPUS = ["cert: %s\nblock: >\n  %s\n  %s\nshared: &c %s\nuse: *c\nn: 1\n" % (
     enc(OLD, CR_PLAINTEXTS[i]), enc(OLD, CR_PLAINTEXTS[i + 1])[:24], enc(OLD, CR_PLAINTEXTS[i + 1])[24:], enc(OLD, CR_PLAINTEXTS[(i + 2) % 8]))
     for i in (0, 2, 4, 6)]
-CORPUS += ["- %s\n- |\n  %s\n  %s\n" % (enc(OLD, CR_PLAINTEXTS[5]), enc(OLD, CR_PLAINTEXTS[1])[:30], enc(OLD, CR_PLAINTEXTS[1])[30:])]
+CR_CORPUS += ["- %s\n- |\n  %s\n  %s\n" % (enc(OLD, CR_PLAINTEXTS[5]), enc(OLD, CR_PLAINTEXTS[1])[:30], enc(OLD, CR_PLAINTEXTS[1])[30:])]
 
 
 def malformed_corpus(tier):
@@ -395,6 +405,7 @@ def gen_cases(chk, n, n_multi):
     cases = [{"text": t, "src": "corpus"} for t in CORPUS]
     cases += padded_corpus(chk.tier)
     cases += malformed_corpus(chk.tier)
+    cases += [{"text": t, "src": "cr"} for t in CR_CORPUS]
     # several files in ONE invocation, the same anchor names on secrets of different files
     cases += [{"texts": [CORPUS[i] for i in grp], "src": "multi-corpus"} for grp in MULTI_CORPUS]
     rng = random.Random(chk.seed)
